@@ -34,6 +34,18 @@ func (l *lgen) longLine() geom.LineString {
 }
 
 func distGen(r *rand.Rand, n int, tier string, emit func(Case)) {
+	// F23 (fixed): two lines leaving a shared vertex in opposite directions along one line, under a general-position map
+	// for which the library's independently rounded orientation tests disagreed; kept so that it stays fixed
+	for _, w := range [][2]string{{"MULTILINESTRING((1 1,0 0,0 2),EMPTY)", "LINESTRING(1 1,2 2,1 2,1 2)"}, {"LINESTRING(1 1,2 2)", "LINESTRING(1 1,0 0)"}} {
+		for _, sw := range []bool{false, true} {
+			a, b := w[0], w[1]
+			if sw {
+				a, b = b, a
+			}
+			emit(Case{"N": 5, "kind": "pair", "wa": a, "wb": b,
+				"rot": []interface{}{"4017598969e4dda7", "404ce58987364266", "c076edb31e588b3e", "c05377cbb074f294"}})
+		}
+	}
 	for i := 0; i < n; i++ {
 		l := &lgen{r: r, N: 3 + r.Intn(6)}
 		mk := 0
